@@ -43,22 +43,47 @@ func statUnits(s string) int64 {
 	return toUnits(v)
 }
 
-// rows of a tab-separated table without its header line, grouped by the tree id of the first column
-func tableByTree(out string, skipHeader bool) map[int64][][]string {
-	res := map[int64][][]string{}
+// rows of a tab-separated table grouped by the tree id of the first column; the columns are found by the names of the
+// header line (a table with its columns in another order, or with more columns, is read all the same), each row is
+// returned in the order of `want`; ok is false when a wanted column is missing or a row is shorter than the header
+func tableByTree(out string, want []string) (res map[int64][][]string, ok bool) {
+	res = map[int64][][]string{}
 	lines := strings.Split(strings.TrimRight(out, "\n"), "\n")
-	if skipHeader && len(lines) > 0 {
-		lines = lines[1:]
+	if len(lines) == 0 {
+		return res, false
 	}
-	for _, ln := range lines {
+	header := strings.Split(lines[0], "\t")
+	pos := map[string]int{}
+	for i, h := range header {
+		pos[strings.TrimSpace(h)] = i
+	}
+	idx := []int{}
+	for _, w := range want {
+		p, found := pos[w]
+		if !found {
+			return res, false
+		}
+		idx = append(idx, p)
+	}
+	ok = true
+	for _, ln := range lines[1:] {
 		if ln == "" {
 			continue
 		}
 		f := strings.Split(ln, "\t")
-		id := atoi(f[0])
-		res[id] = append(res[id], f)
+		row := []string{}
+		for _, p := range idx {
+			if p >= len(f) {
+				ok = false
+				row = append(row, "")
+			} else {
+				row = append(row, f[p])
+			}
+		}
+		id := atoi(row[0])
+		res[id] = append(res[id], row)
 	}
-	return res
+	return res, ok
 }
 
 func statsCase(c *cliEnv, r *rand.Rand, cw *CalcWriter, prop, label string, maxT int) {
@@ -93,10 +118,10 @@ func statsCase(c *cliEnv, r *rand.Rand, cw *CalcWriter, prop, label string, maxT
 	switch kind {
 	case "StatsSummary":
 		out, rc, hung := c.run("stats", "-i", in)
-		tb := tableByTree(out, true)
+		tb, okh := tableByTree(out, []string{"tree", "nodes", "tips", "edges", "meanbrlen", "sumbrlen", "meansupport", "mediansupport", "rooted", "nbcherries", "colless", "sackin"})
 		for i := range ss {
 			rows := tb[int64(i)]
-			if hung || rc != 0 || len(rows) != 1 || len(rows[0]) != 12 {
+			if hung || rc != 0 || !okh || len(rows) != 1 {
 				emit(kind, i, hung, rc, nil, fmt.Sprintf("%d summary lines for tree %d", len(rows), i))
 				continue
 			}
@@ -113,17 +138,16 @@ func statsCase(c *cliEnv, r *rand.Rand, cw *CalcWriter, prop, label string, maxT
 		}
 	case "StatsEdges":
 		out, rc, hung := c.run("stats", "edges", "-i", in)
-		tb := tableByTree(out, true)
+		tb, okh := tableByTree(out, []string{"tree", "brid", "length", "support", "terminal", "depth", "topodepth", "rootdepth", "rightname", "leftname"})
 		for i := range ss {
 			rows := []map[string]interface{}{}
 			perr := ""
+			if !okh {
+				perr = "edge table without the expected columns"
+			}
 			for _, f := range tb[int64(i)] {
-				if len(f) != 13 {
-					perr = fmt.Sprintf("edge row with %d columns", len(f))
-					break
-				}
 				rows = append(rows, map[string]interface{}{"id": atoi(f[0]), "brid": atoi(f[1]), "len": statUnits(f[2]), "sup": statUnits(f[3]), "term": f[4] == "true",
-					"depth": atoi(f[5]), "topo": atoi(f[6]), "rdepth": atoi(f[7]), "rname": f[8], "lname": f[10]})
+					"depth": atoi(f[5]), "topo": atoi(f[6]), "rdepth": atoi(f[7]), "rname": f[8], "lname": f[9]})
 			}
 			emit(kind, i, hung, rc, map[string]interface{}{"rows": rows}, perr)
 		}
@@ -167,35 +191,33 @@ func statsCase(c *cliEnv, r *rand.Rand, cw *CalcWriter, prop, label string, maxT
 		}
 	case "StatsNodes":
 		out, rc, hung := c.run("stats", "nodes", "-i", in)
-		tb := tableByTree(out, true)
+		tb, okh := tableByTree(out, []string{"tree", "nid", "nneigh", "name", "depth", "upnames", "downnames"})
 		for i := range ss {
 			rows := []map[string]interface{}{}
 			perr := ""
+			if !okh {
+				perr = "node table without the expected columns"
+			}
 			for _, f := range tb[int64(i)] {
-				if len(f) != 8 {
-					perr = fmt.Sprintf("node row with %d columns", len(f))
-					break
-				}
 				downs := []string{}
-				if f[7] != "" {
-					downs = strings.Split(f[7], ",")
+				if f[6] != "" {
+					downs = strings.Split(f[6], ",")
 				}
-				rows = append(rows, map[string]interface{}{"id": atoi(f[0]), "nid": atoi(f[1]), "nneigh": atoi(f[2]), "name": f[3], "depth": atoi(f[4]), "up": f[6], "downs": downs})
+				rows = append(rows, map[string]interface{}{"id": atoi(f[0]), "nid": atoi(f[1]), "nneigh": atoi(f[2]), "name": f[3], "depth": atoi(f[4]), "up": f[5], "downs": downs})
 			}
 			emit(kind, i, hung, rc, map[string]interface{}{"rows": rows}, perr)
 		}
 	case "StatsTips":
 		out, rc, hung := c.run("stats", "tips", "-i", in)
-		tb := tableByTree(out, true)
+		tb, okh := tableByTree(out, []string{"tree", "nneigh", "name", "ExternalBranch", "RootToTip"})
 		for i := range ss {
 			rows := []map[string]interface{}{}
 			perr := ""
+			if !okh {
+				perr = "tip table without the expected columns"
+			}
 			for _, f := range tb[int64(i)] {
-				if len(f) != 6 {
-					perr = fmt.Sprintf("tip row with %d columns", len(f))
-					break
-				}
-				rows = append(rows, map[string]interface{}{"id": atoi(f[0]), "nneigh": atoi(f[2]), "name": f[3], "ext4": statF4(f[4]), "rtt4": statF4(f[5])})
+				rows = append(rows, map[string]interface{}{"id": atoi(f[0]), "nneigh": atoi(f[1]), "name": f[2], "ext4": statF4(f[3]), "rtt4": statF4(f[4])})
 			}
 			emit(kind, i, hung, rc, map[string]interface{}{"rows": rows}, perr)
 		}
